@@ -26,12 +26,14 @@ DiscreteClauses(r) ==
     <<"SortedStable", \A i \in 1..n : r.rx[i] = e[i].x>>,
     <<"PlottingPositions", \A i \in 1..n : r.rpn[i] = e[i].pn>>,          \* x 2n: 2i-1
     <<"ZerosRankedThenIgnored", \A i \in 1..n : r.rpn[i] = 2 * i - 1>>,    \* zeros still ranked
-    <<"WeightsCoSorted", \A i \in 1..n : r.rw[i] = e[i].w>>
+    <<"WeightsCoSorted", \A i \in 1..n : r.rw[i] = e[i].w>>,           \* rw = weight x normalising sum
+    \* keyword and array weights reach the regression normalised to sum 1 (None = ones, as they are)
+    <<"WeightsNormalised", r.wk # "none" => Abs(r.wsumq - 1000000000) <= 10>>
   >>
 
 (* ---- law ---- *)
 VarOk(r, v) == /\ Small(v.g)
-               /\ IF r.fixed THEN Small(v.ab) /\ v.dd = 0 ELSE DeltaClose(v.dd, r.dq)
+               /\ IF r.fixed THEN Small(v.ab) /\ v.dd = 0 ELSE DeltaClose(v.dd, r.dq) /\ AbClose(v.ab)
 Law(r, tag) == \A i \in 1..Len(r.variants) : r.variants[i].name = tag => VarOk(r, r.variants[i])
 LawClauses(r) ==
   IF r.exc # "" THEN << <<"UnexpectedException", FALSE>> >>
@@ -53,6 +55,13 @@ LawClauses(r) ==
     <<"EarlierFitDoesNotLeak", r.bits0 = r.bitsH>>,
     \* r.hist: the same fit as the LAST fit of one object with a past (f_delta set / changed after an earlier
     \* fit, delta attribute overwritten, deep copy): the delta in force is f_delta, whatever the object holds
+    <<"FreeDeltaHistory",
+        ~r.fixed /\ Interior(r.dq) =>
+            /\ FreeHistories \subseteq {r.fhist[i].name : i \in 1..Len(r.fhist)}
+            /\ \A i \in 1..Len(r.fhist) :
+                 LET v == r.fhist[i] IN
+                   /\ Small(v.g) /\ DeltaClose(v.dd, r.dq) /\ AbClose(v.ab)
+                   /\ LocalMinD(v.em, v.ep, v.emdef, v.epdef, v.dq)>>,
     <<"ObjectHistoryIndependent",
         r.fixed => /\ ObjectHistories \subseteq {r.hist[i].name : i \in 1..Len(r.hist)}
                    /\ \A i \in 1..Len(r.hist) : r.hist[i].bits = r.bitsA>>,
